@@ -6,6 +6,7 @@ import (
 	"fmt"
 	"runtime"
 	"sort"
+	"strings"
 
 	"github.com/aws/aws-sdk-go-v2/aws"
 	"github.com/aws/aws-sdk-go-v2/service/dynamodb"
@@ -363,6 +364,19 @@ func (d *V2) Exec(cmd *Cmd) (o Outcome) {
 		if cmd.Native == "activate" {
 			d.cl.ActivateNativeInterpreter()
 		}
+		if cmd.Native == "updater-panic" {
+			d.cl.GetNativeInterpreter().AddUpdater(cmd.T, UpdText(cmd), func(item, _ map[string]*mtypes.Item) {
+				s := "partial"
+				item["a"] = &mtypes.Item{S: &s}
+				panic("harness updater panics on purpose")
+			})
+		}
+		if cmd.Native == "updater-set" {
+			d.cl.GetNativeInterpreter().AddUpdater(cmd.T, UpdText(cmd), func(item, _ map[string]*mtypes.Item) {
+				s := "native-updater"
+				item["a"] = &mtypes.Item{S: &s}
+			})
+		}
 		if cmd.Native == "matcher-panic" {
 			d.cl.GetNativeInterpreter().AddMatcher(cmd.T, interpreter.ExpressionTypeFilter, FilterText(cmd), func(_, _ map[string]*mtypes.Item) bool { panic("harness matcher panics on purpose") })
 		}
@@ -611,6 +625,9 @@ func (d *V2) update(cmd *Cmd) (o Outcome) {
 	if in.UpdateExpression == nil {
 		in.UpdateExpression = aws.String("")
 	}
+	if cmd.RetVal != "" {
+		in.ReturnValues = types.ReturnValue(cmd.RetVal)
+	}
 	d.keepIn(cmd.ID, "Key", in.Key)
 	d.keepIn(cmd.ID, "Values", p.values)
 	out, err := d.cl.UpdateItem(bg, in)
@@ -640,6 +657,9 @@ func (d *V2) search(cmd, shape *Cmd, lek map[string]types.AttributeValue) (o Out
 		if shape.Back {
 			in.ScanIndexForward = aws.Bool(false)
 		}
+		if len(shape.Proj) > 0 {
+			in.ProjectionExpression = aws.String(strings.Join(shape.Proj, ", "))
+		}
 		d.keepIn(cmd.ID, "Values", p.values)
 		d.keepIn(cmd.ID, "ExclusiveStartKey", lek)
 		var out *dynamodb.QueryOutput
@@ -650,6 +670,9 @@ func (d *V2) search(cmd, shape *Cmd, lek map[string]types.AttributeValue) (o Out
 	} else {
 		in := &dynamodb.ScanInput{TableName: aws.String(shape.T), IndexName: strp(shape.Index), FilterExpression: p.filter,
 			ExpressionAttributeNames: p.names, ExpressionAttributeValues: p.values, Limit: lim, ExclusiveStartKey: lek}
+		if len(shape.Proj) > 0 {
+			in.ProjectionExpression = aws.String(strings.Join(shape.Proj, ", "))
+		}
 		d.keepIn(cmd.ID, "Values", p.values)
 		d.keepIn(cmd.ID, "ExclusiveStartKey", lek)
 		var out *dynamodb.ScanOutput
